@@ -271,4 +271,100 @@ theorem hop_limit_508_400 (e : S.Esc) (cfg : Cfg) (tbl : Table) (rq : Request) (
   simp only [S.stages, hpre]
 
 
+/-- "otherwise exactly the handler registered for that path and method runs once with the request's path, query,
+options and payload": when no earlier clause applies and the request is not a refused Observe registration, the one
+handler call is for the selected resource — which has a handler for the method — and sees the reconstructed Uri-Path,
+the query, the request view `os` and the payload.  (`Outcome.call` is an `Option`: there is never a second call.) -/
+theorem handler_runs_once_with_request_view (e : S.Esc) (cfg : Cfg) (tbl : Table) (rq : Request) (h : Admitted cfg tbl rq)
+    (ip : Bool) (os : Opts) (path : Bytes) (sel : Sel) (who : Who)
+    (hpre : S.pre e tbl rq (tolOf cfg tbl rq) (clearBlock2M rq.msg.opts) = .go ip os path)
+    (hsel : S.select tbl rq.msg.code ip path = .inr sel)
+    (hck : S.precond cfg rq os sel = none) (hwho : sel.who = some who)
+    (hblk : (sel.observable && (rq.msg.code == 1 || rq.msg.code == 5) && hasOpt os 6 &&
+              (uintOf ((firstOpt os 6).getD []) % 4294967296 == 0) && S.blockNonZero os) = false) :
+    (S.serverSpec e cfg tbl rq).call = some ⟨who, rq.msg.code, path, S.uriQuery e os, os, rq.msg.payload⟩ ∧
+    handlerBit sel.mask rq.msg.code = true := by
+  refine ⟨?_, precond_none_handler hck⟩
+  rw [spec_admitted e h]
+  simp only [S.stages, hpre, hsel, hck, S.run]
+  rw [if_neg (by simpa using hblk), finish_call, hwho]
+  rfl
+
+/-- the request view handed to the handler is the request's option list except for the value of Hop-Limit
+(decremented, RFC 8768) and of Block2 (M bit cleared, RFC 7959 §2.2) — SPEC DECISION D7 -/
+theorem request_view_is_request (e : S.Esc) (cfg : Cfg) (tbl : Table) (rq : Request) (ip : Bool) (os : Opts) (path : Bytes)
+    (hpre : S.pre e tbl rq (tolOf cfg tbl rq) (clearBlock2M rq.msg.opts) = .go ip os path) :
+    os.filter keep = rq.msg.opts.filter keep := by
+  have h := pre_view e tbl rq (tolOf cfg tbl rq) (clearBlock2M rq.msg.opts)
+  rw [hpre] at h
+  simpa [viewOk, clear_keep] using h
+
+/-- "subject to the No-Response … suppression rules" (RFC 7967): for a response of class ≥ 2 to a request carrying
+No-Response, the class bit decides — set: nothing for a Non-confirmable request, the Empty ACK for a Confirmable one;
+clear: the response is sent (also to a multicast request, RFC 7967 §2.1) -/
+theorem no_response_suppression (cfg : Cfg) (rq : Request) (fl : Option Nat) (obs : Bool) (r : Reply) (v : Bytes)
+    (hc : codeClass r.code ≠ 0) (hv : firstOpt rq.msg.opts 258 = some v) :
+    S.deliver cfg rq fl obs r =
+      if (2 ^ (codeClass r.code - 1)) &&& (uintOf v % 4294967296) > 0 then (if r.type = ACK then [emptied r] else [])
+      else [stripObserve obs r] := by
+  unfold S.deliver S.noResponseSays
+  simp only [hc, if_false, hv, Option.map]
+  by_cases hb : (2 ^ (codeClass r.code - 1)) &&& (uintOf v % 4294967296) > 0 <;> simp [hb]
+
+/-- "… and multicast suppression rules": without a No-Response option and without per-resource multicast
+configuration, a response of class 4.xx / 5.xx to a multicast request is not sent, a 2.xx one is -/
+theorem multicast_suppression (cfg : Cfg) (rq : Request) (fl : Option Nat) (obs : Bool) (r : Reply)
+    (hc : codeClass r.code ≠ 0) (hv : firstOpt rq.msg.opts 258 = none) (hm : rq.mcast = true) (hp : cfg.mpr = false) :
+    S.deliver cfg rq fl obs r = if codeClass r.code > 2 then [] else [stripObserve obs r] := by
+  unfold S.deliver S.noResponseSays S.mcastSuppressed
+  simp only [hc, if_false, hv, Option.map, hm, hp, Bool.true_and]
+  cases fl <;> by_cases h2 : codeClass r.code > 2 <;> simp [h2]
+
+
+/-! ### non-vacuity: concrete requests meeting the hypotheses of the clause theorems -/
+def exCfg : Cfg := ⟨false, 8, []⟩
+/-- /a with GET and FETCH handlers -/
+def exTbl : Table := ⟨none, none, [⟨[97], 17, 0, false⟩]⟩
+def exReq (code : Nat) (opts : Opts) : Request := ⟨false, ⟨0, code, 7, [1], opts, []⟩, ⟨69, [104, 105]⟩, .absent⟩
+theorem exAdmitted (code : Nat) (opts : Opts) (h1 : isRequestCode code = true)
+    (h2 : S.badOption exCfg (fwdOf exTbl (exReq code opts)) opts = false) (h3 : hasOpt opts 9 = false) :
+    Admitted exCfg exTbl (exReq code opts) :=
+  ⟨h1, by simp [exReq], h2, h3, Or.inl rfl, by simp [exReq, exCfg], by intro h; cases h⟩
+
+-- GET /c : 4.04
+example := no_resource_404_or_202 E exCfg exTbl (exReq 1 [(11, [99])]) (exAdmitted _ _ (by decide) (by decide) (by decide))
+  [(11, [99])] [99] (by decide) (by decide) (by intro u hu; cases hu) (by decide)
+-- PUT /a : 4.05
+example := no_handler_405 E exCfg exTbl (exReq 3 [(11, [97])]) (exAdmitted _ _ (by decide) (by decide) (by decide))
+  false [(11, [97])] [97] (.res 0 ⟨[97], 17, 0, false⟩) (by decide) (by decide) (by decide) (by decide) (by decide)
+-- GET /a with If-None-Match : 4.12
+example := inm_existing_412 E exCfg exTbl (exReq 1 [(5, []), (11, [97])]) (exAdmitted _ _ (by decide) (by decide) (by decide))
+  false [(5, []), (11, [97])] [97] (.res 0 ⟨[97], 17, 0, false⟩) (by decide) (by decide) (by decide) (by decide) (by decide)
+-- FETCH /a without Content-Format : 4.15
+example := fetch_no_cf_415 E exCfg exTbl (exReq 5 [(11, [97])]) (exAdmitted _ _ (by decide) (by decide) (by decide))
+  false [(11, [97])] [97] (.res 0 ⟨[97], 17, 0, false⟩) (by decide) (by decide) (by decide) (by decide) (by decide)
+  (by decide) (by decide)
+-- GET with Proxy-Uri, no proxy resource : 5.05
+example := proxy_505 E exCfg exTbl (exReq 1 [(35, [99])]) (exAdmitted _ _ (by decide) (by decide) (by decide))
+  (Or.inr (by decide)) (by decide) (Or.inl rfl)
+-- Proxy-Scheme without Uri-Host : 4.02
+example := proxy_scheme_needs_host E exCfg exTbl (exReq 1 [(39, [99])]) (exAdmitted _ _ (by decide) (by decide) (by decide))
+  ⟨by decide, by decide⟩
+-- GET /a with Hop-Limit 1 : 5.08
+example := hop_limit_508_400 E exCfg exTbl (exReq 1 [(11, [97]), (16, [1])]) (exAdmitted _ _ (by decide) (by decide) (by decide))
+  ⟨by decide, by decide⟩ [1] (by decide) (Or.inl (by decide))
+-- GET /a?x with Hop-Limit 5: the GET handler of /a runs once and sees Hop-Limit 4
+example := handler_runs_once_with_request_view E exCfg exTbl (exReq 1 [(11, [97]), (15, [120]), (16, [5])])
+  (exAdmitted _ _ (by decide) (by decide) (by decide))
+  false [(11, [97]), (15, [120]), (16, [4])] [97] (.res 0 ⟨[97], 17, 0, false⟩) (.res 0) (by decide) (by decide) (by decide)
+  (by decide) (by decide)
+-- No-Response 2 (not interested in 2.xx) on a NON request: a 2.05 is not sent
+example : S.deliver exCfg ⟨false, ⟨1, 1, 7, [1], [(258, [2])], []⟩, ⟨69, []⟩, .absent⟩ none false
+    ⟨.app, NON, 69, 7, [1], [], .bytes []⟩ = [] := by
+  rw [no_response_suppression _ _ _ _ _ [2] (by decide) (by decide)]; decide
+-- 4.04 to a multicast request: suppressed
+example : S.deliver exCfg ⟨true, ⟨1, 1, 7, [1], [], []⟩, ⟨69, []⟩, .absent⟩ none false
+    ⟨.lib, NON, 132, 7, [1], [], .bytes []⟩ = [] := by
+  rw [multicast_suppression _ _ _ _ _ (by decide) (by decide) rfl rfl]; decide
+
 end Coap.C10
